@@ -55,45 +55,76 @@ def registry_calls(ctx, fn, hs):
     return out
 
 
+def _release_sites_from_begin(ctx, li, bf, rel):
+    """[(bb in begin, kind, helper fn or None)]: calls on the (pruned) begin path that are, or reach, the release role"""
+    F = ctx.facts
+    out = []
+    for bb, t, target, c in F.call_sites(bf):
+        if bb not in li.reach or target is None:
+            continue
+        if target is rel:
+            out.append((bb, t, None))
+        elif rel in F.reachable_fns([target]):
+            out.append((bb, t, target))
+    return out
+
+
 def release_bound(ctx, rule='C03.release-bound'):
     res = []
     try:
         (rel,) = ctx.need('release-role')
     except AnchorError as e:
         return [unresolved(rule, str(e))]
+    F = ctx.facts
     bf = c09.begin_fn(ctx)
     wp = c09.writable_param(bf)
     li, hs, toks = registry_holders(ctx, bf, {wp: True})
     if not hs:
         return [unresolved(rule, 'reader registry guard in ' + bf.qual)]
     du = ctx.du(bf)
-    sites = [(bb, t) for bb, t, c in calls_to_fn(ctx.facts, bf, rel) if bb in li.reach]
+    sites = _release_sites_from_begin(ctx, li, bf, rel)
     f = floor(rule, 'release calls on the writer begin path', len(sites), 1)
     if f:
         return [f]
-    any_dep = False
+
+    def reg_dep(fn, d, operand, regset):
+        locs, atoms = d.slice_operand(operand)
+        return bool(locs & regset)
     rows = []
-    for bb, t in sites:
-        locs, atoms = du.slice_operand(t['args'][1])
-        dep = bool(locs & hs)
-        cdep = False
-        for (a, s) in bf.control_deps_transitive(bb):
-            at = bf.term(a)
-            if at['k'] == 'switch':
-                l2, _ = du.slice_operand(at['discr'])
-                if l2 & hs:
+    for bb, t, helper in sites:
+        if helper is None:
+            dep = reg_dep(bf, du, t['args'][1], hs)
+            cdep = False
+            for (a, s2) in bf.control_deps_transitive(bb):
+                at = bf.term(a)
+                if at['k'] == 'switch' and (du.slice_operand(at['discr'])[0] & hs):
                     cdep = True
-        rows.append((bb, dep, cdep))
-        any_dep = any_dep or dep
-    for bb, dep, cdep in rows:
+            rows.append((bb, dep, cdep, bf.loc(bb)))
+        else:
+            # the helper receives (something derived from) the registry as a parameter: which parameters are registry-derived here?
+            regparams = {i + 1 for i, a in enumerate(t['args']) if op_place(a) is not None and (du.slice_operand(a)[0] & hs)}
+            dh = ctx.du(helper)
+            inner = [(b2, t2) for b2, t2, c2 in calls_to_fn(F, helper, rel)]
+            if not inner:
+                rows.append((bb, bool(regparams), False, bf.loc(bb)))     # deeper nesting: judged at the call site only
+            for b2, t2 in inner:
+                dep = reg_dep(helper, dh, t2['args'][1], regparams)
+                cdep = False
+                for (a, s2) in helper.control_deps_transitive(b2):
+                    at = helper.term(a)
+                    if at['k'] == 'switch' and (dh.slice_operand(at['discr'])[0] & regparams):
+                        cdep = True
+                rows.append((bb, dep, cdep, helper.loc(b2)))
+    any_dep = any(dep for _, dep, _, _ in rows)
+    for bb, dep, cdep, where in rows:
         if dep or (cdep and any_dep):
-            res.append(ok(rule, 'release bound at %s %s the reader registry' % (bf.loc(bb), 'is read from' if dep else 'is chosen under a test of'), sites=1))
+            res.append(ok(rule, 'release bound at %s %s the reader registry' % (where, 'is read from' if dep else 'is chosen under a test of'), sites=1))
         else:
             res.append(bad(rule, '%s | release bound ignores the reader registry' % bf.qual,
                            'the writer releases pending pages at %s with a bound that depends neither on the contents of the open-reader registry nor on a test of it: '
-                           'pages of a snapshot an open reader still uses can be reused' % bf.loc(bb), where=bf.loc(bb)))
+                           'pages of a snapshot an open reader still uses can be reused' % where, where=where))
     # the release must happen while the registry guard is held (the bound must still be true when pages are released)
-    for bb, t in sites:
+    for bb, t, helper in sites:
         held = li.held_must_at(bb)
         if (REGISTRY_LOCK, 'X') not in held:
             res.append(bad(rule, '%s | release outside the registry critical section' % bf.qual,
@@ -103,6 +134,18 @@ def release_bound(ctx, rule='C03.release-bound'):
 
 OLDEST = {'first', 'min', 'min_by', 'min_by_key'}
 NOT_OLDEST = {'last', 'max', 'max_by', 'max_by_key', 'pop', 'last_mut', 'nth', 'nth_back', 'next_back', 'rev'}
+
+
+def _only_via(F, fn, gate):
+    """is fn reachable from public entry points / Drop impls only through `gate`?"""
+    for e in F.fns:
+        if e.kind == 'Closure' or e is gate:
+            continue
+        if not (e.eff_pub or (e.trait and last_seg(e.trait) == 'Drop')):
+            continue
+        if fn in F.reachable_fns([e], stop={gate}):
+            return False
+    return True
 
 
 def release_sites(ctx, rule='C03.release-site'):
@@ -122,7 +165,7 @@ def release_sites(ctx, rule='C03.release-site'):
         res.append(f)
     for fn, bb, t in sites:
         owner = fn.owner if fn.kind == 'Closure' and fn.owner is not None else fn
-        if owner is not bf:
+        if owner is not bf and not _only_via(F, owner, bf):
             res.append(bad(rule, '%s | releases pending pages outside transaction begin' % fn.qual,
                            '%s calls the release role at %s. Pending pages may only be released when a writer begins: the decision must be taken atomically with the reader registry, and the pages '
                            'freed by a commit must stay pending until the next writer begins so that the previous header\'s tree stays intact (fallback) and no reader that starts during the commit '
